@@ -269,6 +269,8 @@ class SymInt:
     def __invert__(self): return mk(~self.e, ~self.hi, ~self.lo)
 
     def _bitop(self, o, f, kind):
+        if type(o) is int and o == 0 and kind in ("or", "xor"):
+            return self
         try:
             oe, ol, oh = lift3(o)
         except TypeError:
@@ -293,7 +295,8 @@ class SymInt:
 
     def __lshift__(self, o):
         if type(o) is int and o >= 0:
-            return mk(self.e << o, self.lo << o, self.hi << o)
+            # a left shift is a multiplication by 2^o: keeps the linear form (canonical term)
+            return _with_lin(mk(self.e << o, self.lo << o, self.hi << o), _lin_scale(_lin(self), 1 << o))
         raise Unsupported("symbolic shift amount")
 
     def __rshift__(self, o):
@@ -526,6 +529,17 @@ def _with_lin(r, lin):
     if type(r) is SymInt and lin is not None and lin[0]:
         if not (_len(lin[0]) == 1 and lin[1] == 0 and next(iter(lin[0].values()))[1] == 1):
             r.lin = lin
+            # canonical term: the same linear form always yields the same z3 expression, whatever the
+            # order of the additions that produced it (two differently associated sums of the same
+            # lengths then compare equal syntactically instead of by bit-blasting adders)
+            e = None
+            for i in sorted(lin[0]):
+                atom, k = lin[0][i]
+                t = atom.e if k == 1 else atom.e * bvval(k)
+                e = t if e is None else e + t
+            if lin[1] != 0:
+                e = e + bvval(lin[1])
+            r.e = e
     return r
 
 
